@@ -155,7 +155,8 @@ Theorem C02_vested_pipeline : forall (H : list N -> list N) v2 l w0 lf wf ef bf 
   0 < price (st w0) ->
   bal w0 sc_addr (lp_token (st w0)) 0 = total_deposited (st w0) ->
   tpt (st w0) * (nr_winning (st w0) + total_reserved v2 (st w0)) <= total_deposited (st w0) ->
-  ClaimInv w3 (map fst l) /\ VInv v2 w3 (map fst l) 0.
+  ClaimInv w3 (map fst l) /\ VInv v2 w3 (map fst l) 0 /\
+  pay_token (st w3) = pay_token (st w0) /\ lp_token (st w3) = lp_token (st w0).
 Proof. exact pipeline_gt_vested. Qed.
 
 (** through the set-up history (allocation with guarantees, deposit, confirmations, pause, timeline,
@@ -179,8 +180,33 @@ Theorem C02_vested_from_deployment : forall (H : list N -> list N) v w0 lf wf ef
   after_interrupted (select_winners H) ls w1 = Some ws -> select_winners H es bs ws = Ok (w2, 0) ->
   after_interrupted (distribute_guaranteed_tickets H (vflag v)) ld w2 = Some wd ->
   distribute_guaranteed_tickets H (vflag v) ed bd wd = Ok (w3, 0) ->
-  exists l : list (N * N), ClaimInv w3 (map fst l) /\ VInv (vflag v) w3 (map fst l) 0.
+  exists l : list (N * N), ClaimInv w3 (map fst l) /\ VInv (vflag v) w3 (map fst l) 0 /\
+                           pay_token (st w3) <> lp_token (st w3).
 Proof. exact deployed_vested. Qed.
+
+(** ... followed by vesting claims (first or later, anybody, any round) and owner withdrawals in any
+    order: both ledgers keep holding; once everybody is settled and paid in full and the owner has
+    withdrawn, the contract holds neither payment tokens nor launchpad tokens *)
+Theorem C02_vested_any_order : forall v2 w w' A x,
+  ClaimInv w A -> VInv v2 w A x -> pay_token (st w) <> lp_token (st w) -> vsteps v2 w w' ->
+  ClaimInv w' A /\ VInv v2 w' A x /\ pay_token (st w') <> lp_token (st w') /\ lp_token (st w') = lp_token (st w).
+Proof. exact VInv_steps. Qed.
+
+Theorem C02_vested_from_deployment_to_the_end : forall (H : list N -> list N) v w0 lf wf ef bf w1 ls ws es bs w2 sd rest ld wd ed bd w3 w4,
+  guar v -> setup_reach_gt H v w0 ->
+  deposited (st w0) = true -> 0 < price (st w0) ->
+  after_interrupted filter_tickets lf w0 = Some wf -> filter_tickets ef bf wf = Ok (w1, 0) ->
+  seeds w1 = sd :: rest ->
+  after_interrupted (select_winners H) ls w1 = Some ws -> select_winners H es bs ws = Ok (w2, 0) ->
+  after_interrupted (distribute_guaranteed_tickets H (vflag v)) ld w2 = Some wd ->
+  distribute_guaranteed_tickets H (vflag v) ed bd wd = Ok (w3, 0) ->
+  vsteps (vflag v) w3 w4 ->
+  exists l : list (N * N),
+    ClaimInv w4 (map fst l) /\ VInv (vflag v) w4 (map fst l) 0 /\
+    ((forall a, In a (map fst l) -> confirmed (st w4) a = 0) -> claimable_payment (st w4) = 0 ->
+     nr_winning (st w4) = 0 -> (forall a, In a (map fst l) -> outstanding (st w4) a = 0) -> surplus (st w4) = 0 ->
+     bal w4 sc_addr (pay_token (st w4)) 0 = 0 /\ bal w4 sc_addr (lp_token (st w4)) 0 = 0).
+Proof. exact deployed_vested_drained. Qed.
 
 (** any claim (first or later, any round): both ledgers are kept; the caller receives exactly the
     decrease of what the contract owes them *)
@@ -258,6 +284,8 @@ Print Assumptions C02_vested_ledger.
 Print Assumptions C02_vested_pipeline.
 Print Assumptions C02_setup_ledger.
 Print Assumptions C02_vested_from_deployment.
+Print Assumptions C02_vested_any_order.
+Print Assumptions C02_vested_from_deployment_to_the_end.
 Print Assumptions C02_vested_claim.
 Print Assumptions C02_vested_owner.
 Print Assumptions C02_vested_claim_live.
